@@ -252,5 +252,6 @@ pub fn c06(a: &Args) {
             }
         }
     }
-    out.finish("every model of the C01 space (roots of both kinds) x assumption sets (empty, random of 1..3 literals, a contradictory one) x amount sequences over {1,2,3,5,count,count+1} up to two cycles (all sequences up to depth 4/5 for count<=6, random otherwise), literals of A permuted between calls, through the library and the stream; pages of 10 000+ configurations on two models with 16 384 / 24 576 models; non-trivial = at least 2 models contain A; distinct by (file, A, sequence)");
+    crate::shifted_props::shifted(a, &mut out, &mut rng, &["enum"]);
+    out.finish("(+ renumbered models: features base+1..base+n for base 126 / 254 / 1020, judged by the small model's truth table: enum) every model of the C01 space (roots of both kinds) x assumption sets (empty, random of 1..3 literals, a contradictory one) x amount sequences over {1,2,3,5,count,count+1} up to two cycles (all sequences up to depth 4/5 for count<=6, random otherwise), literals of A permuted between calls, through the library and the stream; pages of 10 000+ configurations on two models with 16 384 / 24 576 models; non-trivial = at least 2 models contain A; distinct by (file, A, sequence)");
 }
